@@ -3,7 +3,7 @@
    call, no other event; execute_command then leaves connection and server state as they were (C05/ConnFacts), the
    reply is an error frame (C04) and the loop goes on with the next request (C03). *)
 From Coq Require Import String.
-From GR Require Import Base Resp Handler Exec Conn Grammar GrammarFacts.
+From GR Require Import Base Resp Handler Exec Conn Grammar GrammarFacts GrammarMal.
 
 Section C10.
   Variable hstate : Type.
@@ -47,7 +47,77 @@ Section C10.
     inttok_ok n = true -> (it_val n < 1)%Z ->
     next_set_opts (bulk (w_txt w) :: bulk (it_txt n) :: rest) o = None.
   Proof. exact set_nonpositive_expiry. Qed.
+
+  (* (6) SET accepts EXACTLY the option grammar: for any key, value and any further bulk strings the request is either refused
+     without an event, or the further strings are the print of a valid option list (each of NX/XX, an expiry, KEEPTTL, GET at
+     most once; operands positive and in range) and the handler is called once with exactly those options.  Every repetition
+     or combination of exclusive options, every bad operand and every unknown word is therefore refused. *)
+  Theorem C10_set_accepts_exactly_the_grammar : forall c k v ts s,
+    x_SET hstate handle c (bulk k :: bulk v :: map bulk ts) s = (x_fw, s) \/
+    exists ws, valid (QSet k v ws) = true /\ ts = flat_map print_set_word ws /\
+               x_SET hstate handle c (bulk k :: bulk v :: map bulk ts) s = pass hstate handle c (HSet k v (set_opt_of ws)) s.
+  Proof. first [exact (set_accepts_only_grammar hstate handle) | exact (set_accepts_only_grammar hstate handle regexp_src)]. Qed.
+
+  (* two of NX/XX, or two of EX/PX/EXAT/PXAT, anywhere among the options, in any letter case *)
+  Theorem C10_set_exclusive_options : forall c k v ts s,
+    (2 <= count_if tok_cond ts \/ 2 <= count_if tok_exp ts)%nat ->
+    x_SET hstate handle c (bulk k :: bulk v :: map bulk ts) s = (x_fw, s).
+  Proof. first [exact (set_exclusive_options hstate handle) | exact (set_exclusive_options hstate handle regexp_src)]. Qed.
+
+  (* (7) a null - or anything else that is neither a string nor a number - anywhere in the part of the argument list the command
+     reads, for ANY argument list (no validity hypothesis on the rest) and every one of the 39 request forms *)
+  Theorem C10_null_rejected : forall r c a s m,
+    In m (scope r a) -> novalue m -> exec_of hstate handle regexp_src r c a s = (x_fw, s).
+  Proof. exact (novalue_rejected hstate handle regexp_src). Qed.
+
+  (* (8) a token that is not an int64 numeral (null, text, fraction, overflowing) where an integer is required; a numeral
+     outside the accepted range (expiries); a non-float / non-range token where a score is required; bad option operands *)
+  Theorem C10_non_integer_rejected : forall r c a s p m,
+    In p (int_pos r) -> nth_error a p = Some m -> msg_integer m = None -> exec_of hstate handle regexp_src r c a s = (x_fw, s).
+  Proof. exact (non_integer_rejected hstate handle regexp_src). Qed.
+  Theorem C10_out_of_range_rejected : forall r c a s m z lo hi,
+    int_range r = Some (lo, hi) -> nth_error a 1 = Some m -> msg_integer m = Some z -> (z < lo \/ hi < z)%Z ->
+    exec_of hstate handle regexp_src r c a s = (x_fw, s).
+  Proof. exact (out_of_range_rejected hstate handle regexp_src). Qed.
+  Theorem C10_zincrby_non_float : forall c a s m, nth_error a 1 = Some m -> nofloat m -> x_ZINCRBY hstate handle c a s = (x_fw, s).
+  Proof. first [exact (zincrby_non_float_rejected hstate handle) | exact (zincrby_non_float_rejected hstate handle regexp_src)]. Qed.
+  Theorem C10_zrangebyscore_bad_bound : forall c a s p m,
+    (p = 1 \/ p = 2)%nat -> nth_error a p = Some m -> norange m -> x_ZRANGEBYSCORE hstate handle c a s = (x_fw, s).
+  Proof. first [exact (zrangebyscore_bad_bound_rejected hstate handle) | exact (zrangebyscore_bad_bound_rejected hstate handle regexp_src)]. Qed.
+  Theorem C10_zrange_bad_bound : forall c a s p m,
+    (p = 1 \/ p = 2)%nat -> nth_error a p = Some m ->
+    (forall t, msg_string m = Some t -> atoi t = None /\ parse_range_score t = None) ->
+    x_ZRANGE hstate handle c a s = (x_fw, s).
+  Proof. first [exact (zrange_bad_bound_rejected hstate handle) | exact (zrange_bad_bound_rejected hstate handle regexp_src)]. Qed.
+  Theorem C10_zadd_bad_first_score : forall c k ws m t rest s,
+    forallb za_word_ok ws = true -> msg_string m = Some t -> is_za_kw t = false -> parse_float t = None ->
+    x_ZADD hstate handle c (bulk k :: map bulk (map za_txt ws) ++ m :: rest) s = (x_fw, s).
+  Proof. first [exact (zadd_bad_first_score_rejected hstate handle) | exact (zadd_bad_first_score_rejected hstate handle regexp_src)]. Qed.
+  Theorem C10_zadd_bad_later_score : forall more score mem m t rest,
+    forallb (fun p : fltok * bytes => fltok_ok (fst p)) more = true -> msg_string m = Some t -> parse_float t = None ->
+    zadd_members (bulk mem :: flat_map (fun p : fltok * bytes => [bulk (ft_txt (fst p)); bulk (snd p)]) more ++ m :: rest) score = None.
+  Proof. exact zadd_bad_later_score_rejected. Qed.
+  Theorem C10_limit_bad_operand : forall l w x y rest o,
+    forallb zr_word_ok l = true -> kw w "LIMIT" = true -> (msg_integer x = None \/ msg_integer y = None) ->
+    next_range_opts (map bulk (flat_map print_zr_word l) ++ bulk w :: x :: y :: rest) o = None.
+  Proof. exact limit_bad_operand_rejected. Qed.
+  Theorem C10_scan_count_bad_operand : forall l w x rest o,
+    forallb sc_word_ok l = true -> kw w "COUNT" = true -> msg_integer x = None ->
+    next_scan_opts regexp_src (map bulk (flat_map print_sc_word l) ++ bulk w :: x :: rest) o = None.
+  Proof. exact (scan_count_bad_operand_rejected regexp_src). Qed.
 End C10.
+Print Assumptions C10_set_accepts_exactly_the_grammar.
+Print Assumptions C10_set_exclusive_options.
+Print Assumptions C10_null_rejected.
+Print Assumptions C10_non_integer_rejected.
+Print Assumptions C10_out_of_range_rejected.
+Print Assumptions C10_zincrby_non_float.
+Print Assumptions C10_zrangebyscore_bad_bound.
+Print Assumptions C10_zrange_bad_bound.
+Print Assumptions C10_zadd_bad_first_score.
+Print Assumptions C10_zadd_bad_later_score.
+Print Assumptions C10_limit_bad_operand.
+Print Assumptions C10_scan_count_bad_operand.
 Print Assumptions C10_no_partial_execution.
 Print Assumptions C10_missing_argument.
 Print Assumptions C10_mset_dangling.
@@ -56,6 +126,13 @@ Print Assumptions C10_hmset_dangling.
 Print Assumptions C10_config_set_dangling.
 Print Assumptions C10_zadd_dangling.
 Print Assumptions C10_set_nonpositive_expiry.
+
+(* non-vacuity of the new hypotheses: a null is a non-value; SET k v NX xx has two condition words; `abc` is not an integer *)
+Example C10_ex_hyps :
+  novalue (RBulk None) /\ count_if tok_cond [B"NX"; B"xx"] = 2%nat /\ count_if tok_exp [B"ex"; B"10"; B"PXAT"; B"5"] = 2%nat /\
+  msg_integer (bulk (B"abc")) = None /\ msg_integer (bulk (B"9223372036854775808")) = None /\ msg_integer (bulk (B"1.5")) = None /\
+  In (RBulk None) (scope (QSet [] [] []) [bulk (B"k"); bulk (B"v"); bulk (B"NX"); RBulk None]).
+Proof. vm_compute. repeat split; auto. Qed.
 
 (* concrete rejections on the model (the same inputs the correspondence run sends to the implementation) *)
 Example C10_ex :
